@@ -567,7 +567,8 @@ class Cluster(object):
         if k == 'Compact':
             return act[1] in N and N[act[1]].alive
         if k == 'Start':
-            return act[1] in N and not N[act[1]].alive and N[act[1]].voter and not self.cfg.get('journal')
+            # (with a journal only a node that never ran is started fresh: a node that ran has files, it is Restarted)
+            return act[1] in N and not N[act[1]].alive and N[act[1]].voter and (not self.cfg.get('journal') or N[act[1]].generation == 0)
         if k == 'Stop':
             return act[1] in N and N[act[1]].alive
         if k == 'Assert':
